@@ -14,6 +14,21 @@ def main():
     emb = embed.Embedding(fam, job.get('emb', 'mid'))
     BT, BU, TS, SE = embed.classes(fam, impl)
     is_set = job['is_set']
+    # The three states reach _p_resolveConflict from three separate unpicklings: equal keys and values of different
+    # states are different objects.  The 'mid' embedding is moved out of the interpreter's shared small ints and
+    # one-character strings, and every state is passed through its own pickle round trip.
+    if emb.which == 'mid':
+        if fam[0] in 'ILUQ':
+            emb.keys = [1000 + k for k in emb.keys]
+        elif fam[0] == 'O':
+            emb.keys = [k * 3 for k in emb.keys]
+        if fam[1] in 'ILUQ':
+            emb.vals = [1000 + v for v in emb.vals]
+        elif fam[1] == 'O':
+            emb.vals = [(v, v) for v in emb.vals]
+        emb.krank = {k: i + 1 for i, k in enumerate(emb.keys)}
+        emb.vrank = {v: i + 1 for i, v in enumerate(emb.vals)}
+    import pickle
     leafcls, treecls = (SE, TS) if is_set else (BU, BT)
     nk, nv = job['nkeys'], (1 if is_set else job['nvals'])
     links = job['links']
@@ -35,9 +50,10 @@ def main():
             flat.append(emb.key(k))
             if not is_set:
                 flat.append(emb.val(v))
+        flat = pickle.loads(pickle.dumps(tuple(flat), 3))
         if nx:
-            return (tuple(flat), linkobj[nx])
-        return (tuple(flat),)
+            return (flat, linkobj[nx])
+        return (flat,)
 
     def unstate(st):
         """real merged state -> (items as ranks, nx)"""
